@@ -12,6 +12,7 @@
 #include <algorithm>
 #include <map>
 #include <string>
+#include <unordered_map>
 #include <vector>
 
 #include "common/vharness.hpp"
@@ -29,6 +30,9 @@ struct Scenario {
     bool spurious_pass = false;       // additionally explore with one injected spurious wake-up
     int horizon = 50000;
     bool delay = false;  // delay-bounded instead of preemption-bounded: option j at any scheduling point costs j
+    bool thorough_only = false;
+    bool stateful = false;  // explicit-state mode: no bound, prune at abstract states seen before (needs state_cb/tags)
+    uint64_t (*state_cb)() = nullptr;
     bool post_points = true;  // scheduling points also after release-type operations (see vsched.c post_point)
     bool whole = false;  // small scenario: explored entirely by one shard (scenario index % nshards)
 };
@@ -142,6 +146,7 @@ inline void start_worker(double timeout_s) {
             const Scenario& sc = (*scenario_table())[sh->user[0]];
             alarm((unsigned)timeout_s);  // watchdog: ends a worker that stopped reaching scheduling points
             vs_set_quiescence_cb(sc.quiescent_ok);
+            vs_set_state_cb(sc.state_cb);
             vs_begin(sh);
             sc.body();
             vs_end();
@@ -173,6 +178,7 @@ inline ExecResult run_one(const Scenario& sc, const std::vector<unsigned char>& 
     sh->user[1] = sc.delay ? 1 : 0;
     sh->user[2] = 0;
     sh->user[3] = sc.post_points ? 1 : 0;
+    sh->user[4] = sc.stateful ? 1 : 0;
     if (prefix.size() > VS_MAXPREFIX) {
         vh::out_line("ERROR prefix too long");
         exit(2);
@@ -235,6 +241,8 @@ struct Explorer {
     bool stopped = false;  // deadline or failure cap
     std::string stop_reason;
     std::map<std::string, int> fail_count;
+    std::unordered_map<uint64_t, uint64_t> visited;  // stateful mode: abstract state -> signature of its option set
+    unsigned long long abstraction_conflicts = 0;
 
     Explorer(const Scenario& s, int b, int sp) : sc(s), bound(b), spurious_at(sp) {
         shard = s.whole ? 0 : vh::args().shard;
@@ -353,6 +361,27 @@ struct Explorer {
             std::vector<Node> kids;
             for (int i = (int)nd.prefix.size(); i < r.npoints; ++i) {
                 const vs_point& p = r.points[i];
+                if (sc.stateful) {
+                    // explicit-state mode: a state seen before has had all its alternatives scheduled; everything
+                    // later on this execution is reachable from it, so stop branching here
+                    uint64_t sig = p.nopt;
+                    for (int k = 0; k < p.nopt && k < VS_MAXOPT; ++k) sig = sig * 31 + p.tids[k] + 1;
+                    sig = sig * 7 + p.kind;
+                    auto it = visited.find(p.state);
+                    if (it != visited.end()) {
+                        if (it->second != sig) abstraction_conflicts++;
+                        break;
+                    }
+                    visited.emplace(p.state, sig);
+                    for (int alt = 1; alt < p.nopt; ++alt) {
+                        Node k;
+                        k.prefix.assign(taken.begin(), taken.begin() + i);
+                        k.prefix.push_back((unsigned char)alt);
+                        k.depth = nd.depth + 1;
+                        kids.push_back(std::move(k));
+                    }
+                    continue;
+                }
                 for (int alt = 1; alt < p.nopt; ++alt) {
                     if (cost + cost_of(p, alt) > bound) break;
                     Node k;
@@ -401,6 +430,8 @@ inline int run(int argc, char** argv, const std::vector<Scenario>& scs) {
     for (const Scenario& sc : scs) {
         ++sc_index;
         if (!only.empty() && sc.name.find(only) == std::string::npos) continue;
+        if (sc.thorough_only && !A.thorough()) continue;
+        if (sc.stateful && A.opt("nostateful") == "1") continue;  // (TSan builds: explicit-state mode is a functional exploration)
         if (sc.whole && sc_index % A.nshards != A.shard) continue;
         if (vh::past_deadline()) {
             vh::cap("deadline reached: scenario " + sc.name + " and later ones not explored");
@@ -424,6 +455,26 @@ inline int run(int argc, char** argv, const std::vector<Scenario>& scs) {
         }
         int completed = -1;
         bool any_fail = false;
+        if (sc.stateful) {
+            Explorer ex(sc, 0, -1);
+            ex.explore();
+            vh::stat_add("executions", ex.owned);
+            vh::stat_add("transitions", ex.steps);
+            vh::stat_add("choice_points", ex.points_total);
+            vh::stat_add("ok_runs", ex.st_ok);
+            vh::stat_add("quiescent_ok_runs", ex.st_quiescent);
+            vh::stat_add("states", ex.visited.size());
+            vh::stat_add("stateful_abstract_states", ex.visited.size());
+            vh::stat_add("stateful_scenarios_completed", ex.stopped ? 0 : 1);
+            vh::stat_max("max_choice_points", ex.max_points);
+            if (ex.abstraction_conflicts)
+                vh::out_line(vh::fmt("ERROR %s: %llu abstract states were reached with different option sets (state abstraction incomplete)",
+                                     sc.name.c_str(), ex.abstraction_conflicts));
+            if (ex.stopped && ex.stop_reason == "deadline") vh::cap(sc.name + ": deadline during explicit-state exploration");
+            vh::note(vh::fmt("%s: explicit-state exploration: %zu abstract states, %llu executions%s", sc.name.c_str(), ex.visited.size(),
+                             ex.owned, ex.stopped ? " (stopped)" : " (complete)"));
+            continue;
+        }
         for (int b = 0; b <= B; ++b) {
             Explorer ex(sc, b, -1);
             ex.explore();
